@@ -19,13 +19,7 @@ int main()
         reader r(parts[i]);
         std::string op = r.word();
         if (op.empty()) continue;
-        if (op == "wr") {
-            long n = r.num();
-            byte_storage data;
-            for (long k = 0; k < n; ++k) data.push_back(static_cast<byte>(r.num()));
-            t.write(bytes{data.data(), data.size()});
-        }
-        else if (!apply_terminal_op(op, r, t)) {
+        if (!apply_terminal_op(op, r, t)) {
             return 3;
         }
     }
